@@ -168,6 +168,10 @@ def check_case(case) -> Outcome:
                 msg = P.compare(np.asarray(r_), vals[oid])
                 if msg is not None:
                     fails.append(Failure("pickled-array-alone-differs", f"output {oid}: {msg}"))
+            # the combination must not be served by intermediates the stand-alone run left behind: start from an empty
+            # work directory and from a fresh deserialization
+            shutil.rmtree(os.path.join(wd, "work"), ignore_errors=True)
+            got = cloudpickle.loads(blob)
             nt = False
             if combo != "alone" and not fails:
                 a = got[-1]
@@ -211,7 +215,7 @@ def check_case(case) -> Outcome:
 
                             msg = P.compare(r2, Val(exp, exact=va.exact, comparable=va.comparable, rtol=va.rtol, scale=max(va.scale, 1.0) * 4 + 1000))
                             if msg is not None:
-                                fails.append(Failure("combined-with-local-differs" + (":name-collision" if overlap else ""), f"{combo}: {msg}"))
+                                fails.append(Failure("name-collision:combined-with-local-wrong-or-failed" if overlap else "combined-with-local-differs", f"{combo}: wrong values: {msg}"))
                             # behaves like any other array
                             y.plan()
                             if y.ndim >= 1:
@@ -220,7 +224,7 @@ def check_case(case) -> Outcome:
 
                             cubed.store([y], [MemoryStore()], executor=ex())
                         except Exception as e:
-                            fails.append(Failure(f"combined-compute-failed:{type(e).__name__}" + (":name-collision" if overlap else ""), f"{combo}: {e!r}"[:300]))
+                            fails.append(Failure("name-collision:combined-with-local-wrong-or-failed" if overlap else f"combined-compute-failed:{type(e).__name__}", f"{combo}: {e!r}"[:300]))
                 else:
                     labels.add("combo-skipped(dtype)")
         seen, uniq = set(), []
